@@ -550,11 +550,16 @@ func c06Counters(a *Anchors, r *core.Report) {
 
 // c06Release: G3
 func c06Release(a *Anchors, r *core.Report) {
-	rule := "C06.G3 complete-release"
-	r.Floor(rule, 9)
+	releaseRules(a, r, "C06.G3 complete-release", 9)
+}
+
+// releaseRules emits the complete-release obligations under the given rule name (shared by C06.G3 and C04.L2).
+func releaseRules(a *Anchors, r *core.Report, rule string, floor int) {
+	rid := strings.SplitN(rule, " ", 2)[0]
+	r.Floor(rule, floor)
 	f := a.P.Func("node", a.NodeT.Obj().Name(), "unregisterProcess")
 	if f == nil {
-		r.Unk(rule, "C06.G3|fn", "", "", "the process release function is found", "(*node).unregisterProcess not found")
+		r.Unk(rule, rid+"|fn", "", "", "the process release function is found", "(*node).unregisterProcess not found")
 		return
 	}
 	fn := fname(f)
@@ -581,7 +586,7 @@ func c06Release(a *Anchors, r *core.Report) {
 		{"drain relations targeting the pid (RouteTerminatePID)", named("RouteTerminatePID"), "links and monitors on the pid are never notified"},
 		{"drop relations held BY the process (CleanupConsumer)", named("CleanupConsumer"), "the dead process stays in the relation set as requester forever"},
 	} {
-		key := "C06.G3|" + fn + "|" + ob.what
+		key := rid + "|" + fn + "|" + ob.what
 		if bad := pathsMiss(f, ob.pred); bad != nil {
 			r.Bad(rule, key, fn, a.P.Pos(bad.Pos()), "process release: "+ob.what+" on every path", "a path to the return at "+a.P.Pos(bad.Pos())+" skips it: "+ob.why)
 		} else {
@@ -590,7 +595,7 @@ func c06Release(a *Anchors, r *core.Report) {
 	}
 	// name: on the registered-true edge: delete + RouteTerminateProcessID
 	{
-		key := "C06.G3|" + fn + "|registered name"
+		key := rid + "|" + fn + "|registered name"
 		inst := "process release: when a name is registered it is deleted and its relations drained"
 		var regLoad ssa.Value
 		eachInstr(f, func(in ssa.Instruction) {
@@ -637,7 +642,7 @@ func c06Release(a *Anchors, r *core.Report) {
 		}, "meta"},
 	}
 	for _, pr := range pairs {
-		key := "C06.G3|" + fn + "|" + pr.whyFirst
+		key := rid + "|" + fn + "|" + pr.whyFirst
 		found := false
 		for _, g := range family(f) {
 			// a block (or closure) that contains the second call must contain the first as well, on all paths of that body
@@ -682,7 +687,7 @@ func c06Release(a *Anchors, r *core.Report) {
 		{"DeleteAlias", a.ProcessT.Obj().Name(), "aliases", "RouteTerminateAlias", "unregisterAlias"},
 	} {
 		g := a.P.Func("node", e.recv, e.fn)
-		key := "C06.G3|" + e.fn
+		key := rid + "|" + e.fn
 		inst := e.fn + ": removing the identity from table " + e.tbl + " is followed by the drain of its relations"
 		if g == nil {
 			r.Unk(rule, key, "", "", inst, "function not found")
